@@ -465,6 +465,73 @@ func rulePU8() Rule {
 		}}
 }
 
+// ruleLV1: the printer's indentation level is raised and lowered pairwise.
+func ruleLV1() Rule {
+	return Rule{ID: "LV1", Kind: "must", Floor: 2,
+		Doc: "typestate over every printer function, like PU8 but for the indentation level: relative to function entry the level (p.lv) never drops below 0 before a decrement and is 0 again at every exit, under every valuation of the style conditions - so the count handed to bytes.Repeat in indent() is never negative",
+		Run: func(c *Ctx, rr *core.RuleResult) {
+			lv := c.fieldVar("printer", "printer", "lv")
+			if lv == nil {
+				rr.Unkp(c.P, "anchor:printer.lv", 0, "field printer.lv not found")
+				return
+			}
+			for _, f := range c.funcsOfPkg("printer", false) {
+				info := f.Info()
+				bad := token.NoPos
+				delta := func(n ast.Node) int {
+					switch x := n.(type) {
+					case *ast.IncDecStmt:
+						if core.FieldOf(info, x.X) == lv {
+							if x.Tok == token.INC {
+								return 1
+							}
+							return -1
+						}
+					case *ast.AssignStmt:
+						for _, l := range x.Lhs {
+							if core.FieldOf(info, l) == lv {
+								bad = x.Pos()
+							}
+						}
+					}
+					return 0
+				}
+				uses := false
+				f.OwnNodes(func(n ast.Node) bool {
+					if delta(n) != 0 {
+						uses = true
+					}
+					return true
+				})
+				key := f.Name + "|level-balance"
+				if bad != token.NoPos {
+					rr.Bad(f, key, bad, "the indentation level is assigned, not raised or lowered by one: the pairing that keeps it non-negative cannot be followed")
+					continue
+				}
+				if !uses {
+					continue
+				}
+				atoms := collectAtoms(c.P, f)
+				g := cfg.New(f.Body, core.MayReturn(info))
+				worst := ""
+				nval := 1 << len(atoms)
+				for v := 0; v < nval && worst == ""; v++ {
+					val := map[string]bool{}
+					for i, a := range atoms {
+						val[a] = v&(1<<i) != 0
+					}
+					worst = balance(c.P, f, g, delta, val)
+				}
+				if worst == "" {
+					rr.OK(f, key, f.Pos(), "balanced", fmt.Sprintf("balanced under all %d valuation(s) of %v", nval, atoms))
+				} else {
+					worst = strings.NewReplacer("a here-document frame is popped", "the indentation level is lowered", "has not pushed one", "has not raised it", "another construct's pending bodies are flushed at the wrong place", "the level can become negative, and bytes.Repeat panics on a negative count", "pushed and popped a different number of here-document frames", "raised and lowered the indentation level a different number of times", "pending bodies are lost or flushed twice", "what is printed afterwards is indented wrongly, or the level becomes negative", "the pending-here-document depth", "the indentation level").Replace(worst)
+					rr.Bad(f, key, f.Pos(), worst)
+				}
+			}
+		}}
+}
+
 // normCond strips negation and returns a canonical atom and its polarity.
 func normCond(e ast.Expr) (string, bool) {
 	e = ast.Unparen(e)
